@@ -745,6 +745,7 @@ func (x *Exec) callContract(call *ast.CallExpr, c *Contract, obj *types.Func, fi
 	}
 	oldEnv := &CEnv{X: x, Names: names, St: pre, Pkg: pkg}
 	penv := &CEnv{X: x, Names: post, St: st, Pkg: pkg, Old: oldEnv}
+	x.applyGhostSets(st, c, penv)
 	x.wrapCfail("postcondition of "+c.Key, func() {
 		for _, e := range c.Ensures {
 			x.assume(st, penv.HypFormula(e.Expr))
@@ -767,6 +768,33 @@ func (x *Exec) callContract(call *ast.CallExpr, c *Contract, obj *types.Func, fi
 	default:
 		k(st, &Val{Tuple: rvals})
 	}
+}
+
+// applyGhostSets performs the ghost updates a contract declares for the return of its function.
+func (x *Exec) applyGhostSets(st *St, c *Contract, env *CEnv) {
+	if len(c.GhostSets) == 0 {
+		return
+	}
+	x.wrapCfail("ghostset of "+c.Key, func() {
+		// all right-hand sides are evaluated before any update
+		vals := make([]*Term, len(c.GhostSets))
+		for i, gs := range c.GhostSets {
+			vals[i] = env.tr(gs.Expr).T
+		}
+		for i, gs := range c.GhostSets {
+			g, ok := x.W.GhostVars[gs.Var]
+			if !ok {
+				cfail("ghostset: unknown ghost variable %s", gs.Var)
+			}
+			if vals[i] == nil || vals[i].Sort != g.Sort {
+				cfail("ghostset %s: value has the wrong sort", gs.Var)
+			}
+			x.checkWrite(st, g.Key, Null, 0)
+			nw := x.fresh(g.Key, g.Sort)
+			x.assume(st, Eq(nw, vals[i]))
+			st.heap[g.Key] = nw
+		}
+	})
 }
 
 func (x *Exec) wrapCfail(what string, f func()) {
